@@ -146,6 +146,8 @@ func (e *c18Env) reset() {
 
 type c18Op struct {
 	Name string
+	// BadSig: the request is signed with a wrong secret (both sides must refuse it and change nothing)
+	BadSig bool
 	Req  func(st map[string]string) *gw.Req
 	// Post extracts state (upload id, part etag) from the response
 	Post func(st map[string]string, resp *gw.Resp)
@@ -164,6 +166,11 @@ func c18Ops(thorough bool) []c18Op {
 			return NewReq("PUT", gw.ObjPath(c18B, "k1"), "", H("x-amz-meta-color", "Blue", "Content-Type", "text/plain", "Cache-Control", "no-cache", "Content-Disposition", "attachment", "Content-Encoding", "identity", "Content-Language", "en"), []byte("x"))
 		}},
 		{Name: "PutObject empty", Req: func(map[string]string) *gw.Req { return NewReq("PUT", gw.ObjPath(c18B, "k1"), "", nil, nil) }},
+		{Name: "PutObject empty, wrong secret", BadSig: true, Req: func(map[string]string) *gw.Req { return NewReq("PUT", gw.ObjPath(c18B, "k1"), "", nil, nil) }},
+		{Name: "PutObject small, wrong secret", BadSig: true, Req: func(map[string]string) *gw.Req {
+			return NewReq("PUT", gw.ObjPath(c18B, "k1"), "", H("x-amz-meta-color", "Red"), []byte("forged"))
+		}},
+		{Name: "DeleteObject, wrong secret", BadSig: true, Req: func(map[string]string) *gw.Req { return NewReq("DELETE", gw.ObjPath(c18B, "k1"), "", nil, nil) }},
 		{Name: "PutObject 70000", Req: func(map[string]string) *gw.Req {
 			return NewReq("PUT", gw.ObjPath(c18B, "dir/k2"), "", H("x-amz-meta-a", "1", "x-amz-meta-b", "two words"), big)
 		}},
@@ -337,7 +344,11 @@ func c18Run(do func(r *gw.Req) *gw.Resp, ops []c18Op, prog []int, cred gw.Creds)
 	for _, oi := range prog {
 		op := ops[oi]
 		req := op.Req(st)
-		gw.Sign(req, cred, gw.SignOpts{NoSignHeaders: []string{"range"}})
+		if op.BadSig {
+			gw.Sign(req, gw.Creds{Access: cred.Access, Secret: "not-the-secret-of-this-account"}, gw.SignOpts{})
+		} else {
+			gw.Sign(req, cred, gw.SignOpts{NoSignHeaders: []string{"range"}})
+		}
 		resp := do(req)
 		if op.Post != nil {
 			op.Post(st, resp)
@@ -366,7 +377,7 @@ func C18(r *ck.Run) {
 	if r.Thorough() {
 		depth = 3
 	}
-	r.Rule(fmt.Sprintf("every program of length <= %d over 20 (23 thorough) bucket, object, tagging, policy, listing and multipart operations is executed twice from an empty store: through a gateway whose backend is s3proxy pointed at an endpoint process (a posix versitygw on loopback TCP), and against that endpoint directly; after every step 20 read requests (GET whole / ranges, HEAD, attributes, tagging, listings v1/v2 with prefix / delimiter / max-keys, uploads, parts, bucket tagging / policy / ACL / versioning) are issued on both sides and every response (status, error code, content headers, user metadata, ETag, body with timestamps and ids masked) must be equal; callers: root and a userplus account that owns the bucket; distinct = (caller, program)", depth))
+	r.Rule(fmt.Sprintf("every program of length <= %d over 23 (26 thorough) bucket, object, tagging, policy, listing and multipart operations (three of them signed with a wrong secret) is executed twice from an empty store: through a gateway whose backend is s3proxy pointed at an endpoint process (a posix versitygw on loopback TCP), and against that endpoint directly; after every step 20 read requests (GET whole / ranges, HEAD, attributes, tagging, listings v1/v2 with prefix / delimiter / max-keys, uploads, parts, bucket tagging / policy / ACL / versioning) are issued on both sides and every response (status, error code, content headers, user metadata, ETag, body with timestamps and ids masked) must be equal; callers: root and a userplus account that owns the bucket; distinct = (caller, program)", depth))
 	r.Assume("the 'other S3 endpoint' is versitygw itself (posix backend) in a child process; error documents are compared by status and code only")
 	ops := c18Ops(r.Thorough())
 	var progs [][]int
